@@ -110,6 +110,20 @@ static int can_slot_be_imm(JanetSlot s, int8_t *out) {
     return can_be_imm(s.constant, out);
 }
 
+/* Get the target slot for a reduction that writes its accumulator before it has
+ * read all operands. If the hinted destination is itself one of the operands
+ * args[first..], e.g. (set x (+ a b x)), accumulate in a fresh slot instead. */
+static JanetSlot reduce_target(JanetFopts opts, JanetSlot *args, int32_t first) {
+    JanetSlot t = janetc_gettarget(opts);
+    for (int32_t i = first; i < janet_v_count(args); i++) {
+        if (janetc_sequal(t, args[i])) {
+            opts.flags &= ~JANET_FOPTS_HINT;
+            return janetc_gettarget(opts);
+        }
+    }
+    return t;
+}
+
 /* Emit a series of instructions instead of a function call to a math op */
 static JanetSlot opreduce(
     JanetFopts opts,
@@ -135,7 +149,7 @@ static JanetSlot opreduce(
         }
         return t;
     }
-    t = janetc_gettarget(opts);
+    t = reduce_target(opts, args, 2);
     if (opim && can_slot_be_imm(args[1], &imm)) {
         janetc_emit_ssi(c, opim, t, args[0], imm, 1);
     } else {
@@ -315,7 +329,7 @@ static JanetSlot compreduce(
                ? janetc_cslot(janet_wrap_false())
                : janetc_cslot(janet_wrap_true());
     }
-    t = janetc_gettarget(opts);
+    t = reduce_target(opts, args, 1);
     for (i = 1; i < len; i++) {
         if (opim && can_slot_be_imm(args[i], &imm)) {
             janetc_emit_ssi(c, opim, t, args[i - 1], imm, 1);
